@@ -790,6 +790,24 @@ func (x *Exec) evalCall(ce *CEnv, n *ECall) *Val {
 		recv := x.eval(ce, sel.X)
 		return x.evalMethodCall(ce, recv, sel.Sel, n.Args)
 	}
+	// call of a function-valued expression, e.g. c.Caster(w, h)(x, y)
+	fv := x.eval(ce, n.Fun)
+	if fv != nil {
+		if sig, ok := fv.Typ.Underlying().(*types.Signature); ok {
+			var args []*Val
+			for i, a := range n.Args {
+				args = append(args, x.coerce(x.eval(ce, a), sig.Params().At(i).Type()))
+			}
+			if fv.Fn != nil {
+				return x.specInlineClosure(ce, fv, args)
+			}
+			ft := x.asTerm(fv)
+			if cl, ok := x.closures[ft.ID]; ok {
+				return x.specInlineClosure(ce, cl, args)
+			}
+			return x.applyFuncValue(ft, sig, args)
+		}
+	}
 	cfail("unsupported call form")
 	return nil
 }
